@@ -289,9 +289,14 @@ def sig_of(node):
     what is called / stored / raised, not how"""
     if isinstance(node, ast.Raise):
         exc = node.exc
+        msg = ''
         if isinstance(exc, ast.Call):
+            for a in exc.args:
+                if isinstance(a, ast.Constant) and isinstance(a.value, str):
+                    msg = ':' + ' '.join(a.value.split()[:4])       # which refusal of that class (two refusals of one class differ)
+                    break
             exc = exc.func
-        return 'raise ' + (norm(exc) if exc is not None else '')
+        return 'raise ' + (norm(exc) if exc is not None else '') + msg
     if isinstance(node, (ast.Assign, ast.AugAssign, ast.AnnAssign)):
         tgts = node.targets if isinstance(node, ast.Assign) else [node.target]
         t = ','.join(sorted(_chain(x) for x in tgts))
